@@ -153,7 +153,7 @@ func (r *run) blobCase(k int, blob []byte, hexmode bool, mu *Mut) {
 
 // blobCaseOn: the check made on a given (possibly long-lived) Signer object.
 func (r *run) blobCaseOn(s *signer.Signer, stream string, k int, blob []byte, hexmode bool, mu *Mut) bool {
-	c := &Case{Stream: stream, Op: "check", Fam: "blob", Key: k, Tok: hx16(blob), Mut: mu}
+	c := &Case{Stream: stream, Op: "check", Fam: "blob", Key: k, Tok: hx16(blob), Mut: mu, History: r.hist}
 	var ok bool
 	var out []byte
 	if hexmode {
@@ -177,7 +177,7 @@ func (r *run) signCase(k int, data []byte, hexmode bool) []byte {
 }
 
 func (r *run) signCaseOn(s *signer.Signer, stream string, k int, data []byte, hexmode bool) []byte {
-	c := &Case{Stream: stream, Op: "sign", Key: k, Data: hx16(data), Macs: []Mac{macEntry(k, data)}}
+	c := &Case{Stream: stream, Op: "sign", Key: k, Data: hx16(data), Macs: []Mac{macEntry(k, data)}, History: r.hist}
 	var tok []byte
 	if hexmode {
 		c.Op = "signhex"
